@@ -2,21 +2,20 @@ SPECIFICATION MCSpec
 CONSTANTS
   Nib = {0, 1}
   KeyLen = 2
-  Names = {"a", "s"}
+  Names = {"a"}
   Main = {"a"}
-  Opts <- OptsAS
+  Opts <- OptsTeeth
   MaxMaj = 3
   MaxMin = 1
   MaxForks = 0
   MaxTouch = 1
-  InitConts <- InitAS
+  InitConts <- InitA1
   InFlightReads = FALSE
-  AlignedOnly = TRUE
-  StorageUnchanged <- MutStorageUnchanged
+  AlignedOnly = FALSE
+  LayoutAfterReopen <- MutLayoutAfterReopen
 INVARIANT RetainedReadable
 INVARIANT PrunedNeverDifferent
 INVARIANT NoWrongNode
 INVARIANT RootCanonical
 INVARIANT PrunedUnreadable
-INVARIANT LayoutPersistent
 CHECK_DEADLOCK FALSE
